@@ -129,24 +129,25 @@ func (c *config) mode() string {
 
 // world is one instance: real mock cluster + mock PD (wrapped) + real RegionCache + mock RPC client.
 type world struct {
-	cfg     *config
-	st      *stats
-	cluster *mocktikv.Cluster
-	pd      *stalePD
-	cache   *locate.RegionCache
-	client  client.Client
-	stores  []uint64
-	up      map[uint64]bool
-	hist    [][]*router.Region             // region table after every region-changing topology op (hist[0] = initial)
-	verRng  map[[2]uint64][2]string        // (region id, version) -> range, from every table ever recorded
-	prev    locate.VerifC09Dump            // last white-box dump (for the no-regression check)
-	check   bool                           // oracles on/off (off while replaying a prefix)
-	report  func(key, what string)         // violation sink
-	curOp   string                         // for messages
-	tp      []regionInfo                   // cached ground truth (reset by snapshot)
-	served0 int                            // stale answers served before the current op
-	dead    bool                           // the code under test panicked: locks may be held, do not touch the instance again
-	reloadHit bool                         // the current lookup touches a usable cached entry that is scheduled for reload
+	cfg       *config
+	st        *stats
+	cluster   *mocktikv.Cluster
+	pd        *stalePD
+	cache     *locate.RegionCache
+	client    client.Client
+	stores    []uint64
+	up        map[uint64]bool
+	hist      [][]*router.Region      // region table after every region-changing topology op (hist[0] = initial)
+	verRng    map[[2]uint64][2]string // (region id, version) -> range, from every table ever recorded
+	prev      locate.VerifC09Dump     // last white-box dump (for the no-regression check)
+	check     bool                    // oracles on/off (off while replaying a prefix)
+	report    func(key, what string)  // violation sink
+	curOp     string                  // for messages
+	tp        []regionInfo            // cached ground truth (reset by snapshot)
+	served0   int                     // stale answers served before the current op
+	dead      bool                    // the code under test panicked: locks may be held, do not touch the instance again
+	opPre     locate.VerifC09Dump     // dump at the start of the current op (messages)
+	reloadHit bool                    // the current lookup touches a usable cached entry that is scheduled for reload
 }
 
 type codecClient struct {
@@ -325,7 +326,8 @@ func (w *world) applicable(o Op) bool {
 	case "selm":
 		// the replica selector marks a region only when it sees a stale store epoch
 		e := cachedEntryFor(&w.prev, keyOf(o.K))
-		if e == nil || e.TTL <= time.Now().Unix() || e.SyncFlags&(locate.VerifC09FlagDelayedReloadPending|locate.VerifC09FlagDelayedReloadReady) != 0 {
+		// (an entry flagged needReloadOnAccess is not "valid" for newReplicaSelector: no selector is built)
+		if e == nil || e.TTL <= time.Now().Unix() || e.SyncFlags&(locate.VerifC09FlagReloadOnAccess|locate.VerifC09FlagDelayedReloadPending|locate.VerifC09FlagDelayedReloadReady) != 0 {
 			return false
 		}
 		for _, st := range e.EpochStale {
@@ -458,6 +460,7 @@ func (w *world) pdSync() {
 func (w *world) apply(o Op) (outcome string) {
 	w.curOp = o.String()
 	w.served0 = w.pd.served
+	w.opPre = w.prev
 	w.reloadHit = w.touchesReloadScheduled(o)
 	if w.reloadHit && w.check {
 		w.st.reloadLookups.Add(1)
@@ -714,6 +717,7 @@ func (w *world) converge(rounds int) {
 			for r := 0; r < rounds; r++ {
 				locate.VerifC09BgTick(w.cache) // time passes: health / resolve loops tick
 				w.served0 = w.pd.served
+				w.opPre = w.prev
 				w.reloadHit = w.touchesReloadScheduled(Op{Kind: "send", K: ki})
 				out, served := w.sendOnce(bo, k)
 				w.pdSync()
@@ -735,4 +739,3 @@ func (w *world) converge(rounds int) {
 		}()
 	}
 }
-
